@@ -11,6 +11,7 @@ import (
 func init() {
 	register("C18", "Structural clause decided: the message state has exactly three writers with constant values (akeHasFinished→encrypted, End→plaintext, processDisconnectedTLV→finished); each raises exactly the specified security event under the specified condition on the state loaded before the store; End emits the disconnect TLV only while encrypted; Send dispatches on the state (finished: error, no use of the text; plaintext/encrypted: the respective sender); retransmission is armed only by the three specified events, the queue is replaced (not extended) by encrypted sends and extended only by sends waiting for encryption, retransmit takes the queue once, marks re-sent texts iff armed by an error message, does not re-queue what it sends and forgets the queue on success; maybeRetransmit runs only after a Reveal-Signature/Signature handler accepted its message. Not decided: event sequences along whole multi-session histories, timing.",
 		func(a *An) {
+			a.combinedHandlers("P.combined-handlers")
 			a.c18StateWriters()
 			a.c18Events()
 			a.c18SendDispatch("P.send-dispatch")
